@@ -109,7 +109,7 @@ def run_deser(case: dc.Case, rz, label, spec, st, tier):
                 st.violation(
                     dict(
                         base,
-                        signature={"kind": "deser_option_changes_result", "option": "no_copy" if nc is not True else ("override_dataclass_constructors" if ov else route), "shape": dc.shape_of(label), "verdicts": [ref[0], oc[0]]},
+                        signature={"kind": "deser_option_changes_result", "option": "+".join(n for n, on in (("override_dataclass_constructors", ov), ("no_copy=False", not nc), ("function", route == "function")) if on), "shape": dc.shape_of(label), "verdicts": [ref[0], oc[0]]},
                         what=f"options no_copy={nc} override_ctor={ov} via {route}: {str(oc)[:200]} but default gives {str(ref)[:200]}",
                         source=rz.source,
                     )
